@@ -1064,6 +1064,11 @@ func TestProp_C16(t *testing.T) {
 		r := ev.Get("C16")
 		r.SetExtra("handshake_bytes", fmt.Sprintf("stub->runtime %d, runtime->stub %d (Configure entered at %d / %d)", h.total[s2r], h.total[r2s], h.s2rAtCfg, h.r2sAtCfg))
 	}
+	for _, slug := range []string{knownD8, knownD9, knownD10} {
+		if ev.Known(slug) {
+			ev.Get("C16").SetExtra("excluded_by_construction_"+slug, "the generator and the sweep do not produce this shape while the known finding is active")
+		}
+	}
 	ev.Run(t, "C16", genC16, runC16)
 }
 
